@@ -59,8 +59,18 @@ fn environment_stage(ctx: &Ctx, prop: &str, rep: &mut Report) {
     let profile = ENV_PROFILES[which];
     let evdir = std::env::var_os("VCHECK_TARGET_DIR").map(PathBuf::from).unwrap_or_else(|| ctx.root.join("harness/target")).join("scratch").join(format!("envstage-{}-{}", prop, std::process::id()));
     let _ = std::fs::create_dir_all(&evdir);
+    // the child also runs in a working directory of its own in which files with the names the workloads use as
+    // relative image references really exist: output may not depend on what happens to lie on the disk
+    let cwd = evdir.join("cwd");
+    for f in ["logo.png", "assets/my logo (1).svg", "assets/example.com.svg", "a", "x", "out.svg", "image.png"] {
+        let p = cwd.join(f);
+        if let Some(parent) = p.parent() {
+            let _ = std::fs::create_dir_all(parent);
+        }
+        let _ = std::fs::write(&p, b"decoy");
+    }
     let mut cmd = Command::new(&exe);
-    cmd.args(["run", prop, "--tier", "quick"]).env_clear();
+    cmd.args(["run", prop, "--tier", "quick"]).env_clear().current_dir(&cwd);
     // what the harness itself needs
     for (k, v) in std::env::vars_os() {
         let ks = k.to_string_lossy();
@@ -113,7 +123,7 @@ fn environment_stage(ctx: &Ctx, prop: &str, rep: &mut Report) {
     rep.extra.push((
         "stage_environment".into(),
         json!({
-            "what": "same monitors, every third job of the quick workload, in a child process whose environment was cleared and filled with a profile of commonly consulted variables (terminal colours and capabilities, locale, time zone, directories, verbosity, CI / reproducible-build markers, thread-pool sizes)",
+            "what": "same monitors, every third job of the quick workload, in a child process whose working directory contains files named like the relative image references of the workloads and whose environment was cleared and filled with a profile of commonly consulted variables (terminal colours and capabilities, locale, time zone, directories, verbosity, CI / reproducible-build markers, thread-pool sizes)",
             "profile": which, "variables_set": profile.len(), "evaluations": evals, "violations": violations, "wall_s": (t0.elapsed().as_secs_f64() * 10.0).round() / 10.0,
         }),
     ));
